@@ -17,7 +17,10 @@ RULE = ('random interleavings of 8-18 operations on 2-3 unit stores / models in 
         'stores, add_base_unit, definitions that refer to names only another store knows, cross-store '
         'get_conversion_factor (shared and separate registries), format, convert_variable, '
         'remove_fixable_singularities on structurally identical equations of different models (both lru_caches are '
-        'consulted), add_cmeta_id; a separate stream with Transpiler.set_mathml_handler. Non-trivial = at least two '
+        'consulted; plain form and the reciprocal form x = 1/(2 + U/(exp(U)-1)) that goes through the module constant '
+        'ONE), add_cmeta_id; 14% of the cases repair 2-3 models with SEPARATE registries in one process; snapshots '
+        'include per equation the registry class of every atom\'s unit and the outcome of evaluate_units on both '
+        'sides; a separate stream with Transpiler.set_mathml_handler. Non-trivial = at least two '
         'stores of which two share a registry or carry the same user name with different meanings, and at least one '
         'state-changing operation after the second store exists; distinct = distinct case JSON')
 TRUSTED = ['Lean 4.33 kernel', 'axioms: propext, Classical.choice, Quot.sound',
@@ -77,12 +80,16 @@ BUILTIN_PROBES = ['volt', 'second', 'metre', 'dimensionless', 'litre', 'radian']
 # ---------------------------------------------------------------------------------------------- generation
 def _model_params(rng, same):
     """GHK-like model: i = g*((V+off)/k)/(exp((V+off)/k)-1), dV/dt = -i. `same`: structurally identical twins
-    (1: k is a number; 2: k is a model variable kT, so the analysis result contains a variable besides V)."""
+    (1: k is a number; 2: k is a model variable kT, so the analysis result contains a variable besides V).
+    'recip': the model has a second right-hand side with the GHK-like term under a reciprocal of a non-product,
+    x = 1/(2 + U/(exp(U)-1)) — the Pow(..., -1) branch of _fix_expr_parts, which introduces the module constant ONE."""
     if same:
-        return {'k': '25.0', 'off': '5.0', 'g': '0.3', 'vpfx': 'milli', 'tpfx': 'milli', 'kvar': same == 2}
+        return {'k': '25.0', 'off': '5.0', 'g': '0.3', 'vpfx': 'milli', 'tpfx': 'milli', 'kvar': same == 2,
+                'recip': rng.random() < 0.5}
     return {'k': rng.choice(['25.0', '12.5', '8.0']), 'off': rng.choice(['5.0', '47.13', '-10.0']),
             'g': rng.choice(['0.3', '1.5']), 'vpfx': rng.choice(['milli', 'milli', 'micro', '-3']),
-            'tpfx': rng.choice(['milli', 'milli', 'micro']), 'kvar': rng.random() < 0.4}
+            'tpfx': rng.choice(['milli', 'milli', 'micro']), 'kvar': rng.random() < 0.4,
+            'recip': rng.random() < 0.5}
 
 
 def model_units(p):
@@ -95,6 +102,8 @@ def gen(rng, n, tier):
         r = rng.random()
         if r < 0.08:
             yield gen_handler(rng)
+        elif r < 0.22:
+            yield gen_separate(rng)
         elif r < 0.45:
             yield gen_case(rng, models=False)
         else:
@@ -175,6 +184,35 @@ def gen_case(rng, models):
     return {'kind': 'models' if models else 'stores', 'ops': ops}
 
 
+def gen_separate(rng):
+    """two or three GHK models with SEPARATE registries (sometimes one more sharing), every one repaired, in random
+    order, interleaved with other work; plain and reciprocal right-hand sides"""
+    n = rng.choice([2, 2, 3])
+    ops = []
+    for k in range(n):
+        p = _model_params(rng, same=rng.choice([0, 1, 2]))
+        p['recip'] = (k > 0) if rng.random() < 0.6 else rng.random() < 0.5
+        ops.append(['model', None, p])
+    if rng.random() < 0.3:
+        ops.append(['model', rng.randrange(n), _model_params(rng, same=1)])
+    slots = len(ops)
+    order = list(range(slots))
+    rng.shuffle(order)
+    for s in order:
+        r = rng.random()
+        if r < 0.3:
+            ops.append(['def', s, 'uA', [{'units': 'ampere', 'prefix': rng.choice(['micro', 'nano'])}]])
+        elif r < 0.5:
+            ops.append(['convert', s, 'time', rng.choice(['second', 'ms']), rng.choice(['INPUT', 'OUTPUT'])])
+        elif r < 0.6:
+            ops.append(['cmeta', s, rng.randrange(4)])
+        ops.append(['sing', s])
+        if rng.random() < 0.3:
+            ops.append(['factor', s, 'mV', rng.randrange(slots), 'mV'])
+    ops.append(['sing', rng.randrange(slots)])
+    return {'kind': 'models', 'ops': ops}
+
+
 def gen_handler(rng):
     """separate stream: the process-wide operator table is changed while model A exists"""
     ops = [['model', None, _model_params(rng, True)] if rng.random() < 0.5 else ['load', rng.choice(DOCS + [HH]), None],
@@ -186,7 +224,7 @@ def gen_handler(rng):
 
 
 def corpus():
-    twin = {'k': '25.0', 'off': '5.0', 'g': '0.3', 'vpfx': 'milli', 'tpfx': 'milli', 'kvar': True}
+    twin = {'k': '25.0', 'off': '5.0', 'g': '0.3', 'vpfx': 'milli', 'tpfx': 'milli', 'kvar': True, 'recip': True}
     return [
         # two stores sharing a registry, same name, different meaning; a third with its own registry
         {'kind': 'stores', 'ops': [
@@ -206,6 +244,13 @@ def corpus():
             ['factor', 2, 'mV', 0, 'mV'], ['def', 2, 'uA', [{'units': 'ampere', 'prefix': 'micro'}]],
             ['load', 'test_simple_odes.cellml', None], ['sing', 1], ['convert', 0, 'i', 'mV_per_ms', 'OUTPUT']]},
         gen_handler(__import__('random').Random(7)),
+        # two models with SEPARATE registries, both repaired; the second has the reciprocal form x = 1/(2 + U/(exp(U)-1))
+        # (Pow(..., -1) branch, module constant ONE): every number of the repaired equations must carry a unit of its
+        # OWN model's registry, and evaluate_units must work on both sides
+        {'kind': 'models', 'ops': [
+            ['model', None, dict(twin, kvar=False, recip=False)], ['model', None, dict(twin, kvar=False, recip=True)],
+            ['sing', 0], ['sing', 1], ['model', None, dict(twin, recip=True)], ['sing', 2], ['sing', 0],
+            ['convert', 1, 'V', 'volt', 'INPUT']]},
     ]
 
 
@@ -263,6 +308,9 @@ def _probe_names(case):
 
 def _build_model(name, share, p):
     import sympy as sp
+
+    def eq(lhs, rhs):
+        return sp.Eq(lhs, rhs, evaluate=False)     # no attempt to decide the equation (slow on dummies)
     from cellmlmanip.model import Model
     from cellmlmanip.parser import Parser
     m = Model(name, unit_store=share)
@@ -276,17 +324,21 @@ def _build_model(name, share, p):
     gs = m.add_variable('g_scale', u.get_unit('dimensionless'))
     q = m.create_quantity
     dimless = u.get_unit('dimensionless')
-    m.add_equation(sp.Eq(gs, q(1.0, dimless)))
+    m.add_equation(eq(gs, q(1.0, dimless)))
     k, off, g = float(p['k']), float(p['off']), float(p['g'])
     if p.get('kvar'):
         kT = m.add_variable('kT', mV)
-        m.add_equation(sp.Eq(kT, q(k, mV)))
+        m.add_equation(eq(kT, q(k, mV)))
         k1 = k2 = kT
     else:
         k1, k2 = q(k, mV), q(k, mV)
-    m.add_equation(sp.Eq(i, q(g, rate) * ((V + q(off, mV)) / k1) /
+    m.add_equation(eq(i, q(g, rate) * ((V + q(off, mV)) / k1) /
                          (sp.exp((V + q(off, mV)) / k2) - q(1.0, dimless))))
-    m.add_equation(sp.Eq(sp.Derivative(V, t), -i * m.get_variable_by_name('g_scale')))
+    m.add_equation(eq(sp.Derivative(V, t), -i * m.get_variable_by_name('g_scale')))
+    if p.get('recip'):
+        x = m.add_variable('x', dimless)
+        m.add_equation(eq(x, q(1.0, dimless) / (q(2.0, dimless) + ((V + q(off, mV)) / k1) /
+                                                   (sp.exp((V + q(off, mV)) / k2) - q(1.0, dimless)))))
     return m
 
 
@@ -314,6 +366,29 @@ def _sing(m, p):
             env[e.lhs] = float(e.rhs.subs(env).evalf())
         vals.append(repr(env[m.get_variable_by_name('i')]))
     return ['pw', n, vals]
+
+
+def _equation_units(m):
+    """for every equation: the registry class of the unit of every Quantity / Variable atom (own: a Unit of this
+    model's store; other: a Unit of another registry; string: a placeholder) and the outcome class of
+    `model.units.evaluate_units` on both sides"""
+    from cellmlmanip.model import Quantity, Variable
+    st = m.units
+    out = []
+    for e in m.equations:
+        classes = {}
+        for a in sorted(e.atoms(Quantity, Variable), key=str):
+            u = a.units
+            c = 'own' if isinstance(u, st.Unit) else ('string' if isinstance(u, str) else 'other')
+            classes[c] = classes.get(c, 0) + 1
+        sides = []
+        for side in (e.lhs, e.rhs):
+            try:
+                sides.append('ok:' + st.format(st.evaluate_units(side), base_units=True))
+            except Exception as ex:
+                sides.append('err:' + type(ex).__name__)
+        out.append([str(e.lhs), sorted(classes.items()), sides])
+    return sorted(out, key=lambda r: r[0])
 
 
 def _snap(slot):
@@ -365,6 +440,7 @@ def _snap(slot):
             except Exception as e:
                 ef.append([v.name, 'err:' + type(e).__name__])
         out['equations_for'] = ef
+        out['equation_units'] = _equation_units(m)
         # ownership: every variable occurring in an equation is THIS model's own object (a cached analysis of a
         # structurally identical equation of another model must not smuggle that model's symbols in)
         foreign = []
@@ -521,6 +597,12 @@ def impl(case):
                         r = 'skipped'
                     else:
                         r = _sing(m, slots[target]['p'])
+                        # right after the model's own repair every atom must carry a unit of its OWN registry
+                        for lhs, classes, sides in _equation_units(m):
+                            bad = [c for c in classes if c[0] != 'own']
+                            if bad:
+                                leaks.append({'key': 'leak:foreign-unit', 'detail': 'op %d %s: equation for %s has '
+                                              'atoms with units %s (evaluate_units: %s)' % (idx, op, lhs, bad, sides)})
                 elif kind == 'cmeta':
                     m = slots[target].get('model')
                     if m is None:
